@@ -21,11 +21,25 @@ type Env struct {
 	callee   *target
 	pkg      *types.Package
 	own      bool // evaluating the verified function's own contract (SSA locals visible)
+	capturedCell map[string]func() (string, string) // captured variable -> (cell heap, ref)
+	lazy     map[string]func(*Env) val // state-dependent names (captured variables seen from outside the closure)
 	predDepth int
 }
 
 func (x *Exec) newEnv(cur, old *State) *Env {
 	e := &Env{x: x, vc: x.vc, cur: cur, old: old, names: map[string]val{}, pkg: x.fn.Pkg.Pkg, own: true}
+	// captured variables of the function itself (closure under contract)
+	if len(x.fn.FreeVars) > 0 {
+		e.capturedCell = map[string]func() (string, string){}
+		for _, fv := range x.fn.FreeVars {
+			fvv := fv
+			if pt, ok := fv.Type().Underlying().(*types.Pointer); ok {
+				if _, isStruct := pt.Elem().Underlying().(*types.Struct); !isStruct {
+					e.capturedCell[fv.Name()] = func() (string, string) { return x.vc.cellHeap(pt.Elem()), x.value(fvv) }
+				}
+			}
+		}
+	}
 	return e
 }
 
@@ -96,7 +110,13 @@ func (e *Env) eval(c *CExpr) val {
 		if err != nil {
 			u, err2 := strconv.ParseUint(c.Name, 0, 64)
 			if err2 != nil {
-				e.fail("bad int %s", c.Name)
+				// beyond 64 bits: mathematical integer literal (decimal only)
+				for _, ch := range c.Name {
+					if ch < '0' || ch > '9' {
+						e.fail("bad int %s", c.Name)
+					}
+				}
+				return intVal(c.Name)
 			}
 			return intVal(uintLit(u))
 		}
@@ -152,7 +172,20 @@ func (e *Env) eval(c *CExpr) val {
 	return val{}
 }
 
+// autoLoad: a struct-valued field denotes its address in contracts; where the struct value is wanted, load it.
+func (e *Env) autoLoad(v val, want string) val {
+	if v.srt == sInt && v.typ != nil && want != sInt {
+		if p, ok := v.typ.Underlying().(*types.Pointer); ok {
+			if _, isStruct := p.Elem().Underlying().(*types.Struct); isStruct && e.vc.sortOf(p.Elem()) == want {
+				return val{e.vc.loadStruct(e.cur, p.Elem(), v.t), p.Elem(), want}
+			}
+		}
+	}
+	return v
+}
+
 func (e *Env) coerceTo(v val, srt string) val {
+	v = e.autoLoad(v, srt)
 	if v.srt == "nil" {
 		return val{e.vc.zeroOfSort(srt), v.typ, srt}
 	}
@@ -209,7 +242,7 @@ func (e *Env) binop(c *CExpr) val {
 			if a.t == "nil_slice" {
 				o = b
 			}
-			t = eq(app("s_arr", o.t), "0")
+			t = and(eq(app("s_arr", o.t), "0"), eq(app("s_len", o.t), "0"))
 		case a.srt == sF64 || a.srt == sF32:
 			t = app("fp.eq", a.t, b.t)
 		default:
@@ -267,6 +300,9 @@ func (e *Env) ident(name string) val {
 	vc := e.vc
 	if v, ok := e.names[name]; ok {
 		return v
+	}
+	if f, ok := e.lazy[name]; ok {
+		return f(e)
 	}
 	if e.own {
 		if v, ok := e.x.localByName(e, name); ok {
@@ -336,6 +372,9 @@ func (e *Env) constVal(cv constant.Value, t types.Type) val {
 func (x *Exec) localByName(e *Env, name string) (val, bool) {
 	vc := x.vc
 	fn := x.fn
+	if name == "self" && x.selfRef != "" {
+		return val{x.selfRef, fn.Signature, sInt}, true
+	}
 	for _, p := range fn.Params {
 		if p.Name() == name {
 			return val{x.value(p), p.Type(), vc.sortOf(p.Type())}, true
@@ -360,6 +399,11 @@ func (x *Exec) localByName(e *Env, name string) (val, bool) {
 				}
 			}
 		}
+		if name == "$range" {
+			if rv := x.loopRangeSlice(e.atHeader); rv != nil {
+				return val{x.value(rv), rv.Type(), vc.sortOf(rv.Type())}, true
+			}
+		}
 		if name == "$visited" {
 			if it := x.loopIter(e.atHeader); it != nil {
 				ks := vc.sortOf(it.mt.Key())
@@ -373,6 +417,22 @@ func (x *Exec) localByName(e *Env, name string) (val, bool) {
 				}
 			} else {
 				break
+			}
+		}
+	}
+	// $i<k>: number of completed iterations of range loop k (usable inside nested loops)
+	if strings.HasPrefix(name, "$i") && len(name) > 2 {
+		var k int
+		if _, err := fmt.Sscanf(name[2:], "%d", &k); err == nil {
+			for h, li := range x.loops {
+				if li.ord != k {
+					continue
+				}
+				for _, in := range h.Instrs {
+					if phi, ok := in.(*ssa.Phi); ok && phi.Comment == "rangeindex" {
+						return intVal(app("+", x.value(phi), "1")), true
+					}
+				}
 			}
 		}
 	}
@@ -408,7 +468,7 @@ func (x *Exec) localByName(e *Env, name string) (val, bool) {
 				if id, ok := d.Expr.(interface{ String() string }); ok {
 					_ = id
 				}
-				if ident, ok := identName(d); ok && ident == name {
+				if ident, ok := identName(d); ok && ident == name && isLocalObj(d) {
 					if _, defined := x.vals[d.X]; defined {
 						dup := false
 						for _, c := range cands {
@@ -587,7 +647,8 @@ func (e *Env) index(c *CExpr) val {
 			return val{vc.sq("seq_idx", es, vc.view(es, vc.get(e.cur, h), b.t), i.t), u.Elem(), es}
 		case *types.Map:
 			i = e.coerceTo(i, vc.sortOf(u.Key()))
-			return val{sel(sel(vc.get(e.cur, vc.mapVal(u)), b.t), i.t), u.Elem(), vc.sortOf(u.Elem())}
+			present := and(not(eq(b.t, "0")), sel(sel(vc.get(e.cur, vc.mapDom(u)), b.t), i.t))
+			return val{ite(present, sel(sel(vc.get(e.cur, vc.mapVal(u)), b.t), i.t), vc.zero(u.Elem())), u.Elem(), vc.sortOf(u.Elem())}
 		case *types.Array:
 			return val{sel(b.t, i.t), u.Elem(), vc.sortOf(u.Elem())}
 		}
@@ -706,6 +767,35 @@ func (e *Env) callExpr(c *CExpr) val {
 		es := vc.sortOf(t)
 		vc.seqSort(es)
 		return val{quote("seq_empty$" + es), t, vc.seqSort(es)}
+	case "zero":
+		argn(1)
+		if c.Args[0].Op != "str" {
+			e.fail("zero needs a type name string")
+		}
+		t := e.resolveType(c.Args[0].Name)
+		return val{vc.zero(t), t, vc.sortOf(t)}
+	case "calls":
+		argn(1)
+		a := e.eval(c.Args[0])
+		vc.regComp("Calls", "(Array Int Int)")
+		return intVal(sel(vc.get(e.cur, "Calls"), a.t))
+	case "first":
+		// first(s): s[0] of a sequence
+		argn(1)
+		a := e.eval(c.Args[0])
+		es, ok := seqElem(a.srt)
+		if !ok {
+			e.fail("first of non-sequence")
+		}
+		return val{vc.sq("seq_idx", es, a.t, "0"), a.typ, es}
+	case "payload":
+		// payload(x): the pointer held by interface value x (nil when x holds no pointer)
+		argn(1)
+		a := e.eval(c.Args[0])
+		if a.srt != sAny {
+			e.fail("payload of non-interface")
+		}
+		return val{app("a_val", a.t), nil, sInt}
 	case "arr":
 		argn(1)
 		a := e.eval(c.Args[0])
@@ -750,6 +840,9 @@ func (e *Env) callExpr(c *CExpr) val {
 	case "allocated":
 		argn(1)
 		a := e.eval(c.Args[0])
+		if a.srt == sSlice {
+			return boolVal(app("<", app("s_arr", a.t), vc.getNext(e.cur)))
+		}
 		return boolVal(app("<", app("root", a.t), vc.getNext(e.cur)))
 	case "held", "wheld", "rheld":
 		argn(1)
@@ -883,27 +976,35 @@ func (e *Env) callExpr(c *CExpr) val {
 		if len(sf.Params) != len(c.Args) {
 			e.fail("spec %s expects %d args", c.Name, len(sf.Params))
 		}
+		tenv := e
+		if sf.Pkg != "" {
+			if p := e.x.g.pkgByPath(sf.Pkg); p != nil {
+				tenv = e.cloneWith(e.cur)
+				tenv.pkg = p
+			}
+		}
 		var as, sorts []string
 		for i, a := range c.Args {
 			v := e.eval(a)
-			_, psrt := e.resolveSpecType(sf.Params[i])
+			_, psrt := tenv.resolveSpecType(sf.Params[i])
 			if v.srt == "nil" {
 				v.t = vc.zeroOfSort(psrt)
 				v.srt = psrt
 			}
+			v = e.autoLoad(v, psrt)
 			if v.srt != psrt {
 				e.fail("spec %s arg %d: sort %s, expected %s", c.Name, i, v.srt, psrt)
 			}
 			as = append(as, v.t)
 			sorts = append(sorts, psrt)
 		}
-		rt, rs := e.resolveSpecType(sf.Ret)
+		rt, rs := tenv.resolveSpecType(sf.Ret)
 		fname := quote("spec$" + c.Name)
 		vc.declFun(fname, sorts, rs)
 		if !vc.gdecl["axioms:"+c.Name] {
 			vc.gdecl["axioms:"+c.Name] = true
 			for _, ax := range sf.Axioms {
-				n := e.cloneWith(e.cur)
+				n := tenv.cloneWith(e.cur)
 				n.names = map[string]val{}
 				n.own = false
 				t := n.evalBool(ax)
@@ -912,8 +1013,31 @@ func (e *Env) callExpr(c *CExpr) val {
 		}
 		return val{app(fname, as...), rt, rs}
 	}
+	// application of a (pure) function value: parameter or captured closure
+	if fv, ok := e.names[c.Name]; ok && fv.typ != nil {
+		if sig, ok := fv.typ.Underlying().(*types.Signature); ok && sig.Results().Len() == 1 {
+			var as, sorts []string
+			as = append(as, fv.t)
+			sorts = append(sorts, sInt)
+			for i, a := range c.Args {
+				v := e.eval(a)
+				ps := vc.sortOf(sig.Params().At(i).Type())
+				v = e.coerceTo(v, ps)
+				as = append(as, v.t)
+				sorts = append(sorts, ps)
+			}
+			rt := sig.Results().At(0).Type()
+			return val{app(capplyName(vc, sorts, vc.sortOf(rt)), as...), rt, vc.sortOf(rt)}
+		}
+	}
 	e.fail("unknown function %s", c.Name)
 	return val{}
+}
+
+func capplyName(vc *VC, sorts []string, ret string) string {
+	name := quote("capply$" + strings.Join(sorts[1:], "$") + "$" + ret)
+	vc.declFun(name, sorts, ret)
+	return name
 }
 
 func (e *Env) lookupPred(name string) *PredDef {
@@ -1003,10 +1127,57 @@ func (e *Env) fieldTypeByName(name string) types.Type {
 	return nil
 }
 
+type compRef struct{ comp, ref string }
+
+// modTargets: every (component, ref) a modifies item with an lvalue expression names. A struct-valued field
+// stands for all fields of the embedded struct (recursively).
+func (e *Env) modTargets(m *ModItem) []compRef {
+	vc := e.vc
+	if !m.Elems && !m.MapOf && m.Captured == "" && m.Expr != nil && m.Expr.Op == "sel" {
+		b := e.eval(m.Expr.Args[0])
+		if b.typ != nil {
+			if p, ok := b.typ.Underlying().(*types.Pointer); ok {
+				if st, ok := p.Elem().Underlying().(*types.Struct); ok {
+					if path := findField(st, m.Expr.Name); len(path) == 1 {
+						ft := st.Field(path[0]).Type()
+						if _, isStruct := ft.Underlying().(*types.Struct); isStruct {
+							var out []compRef
+							var rec func(t types.Type, ref string)
+							rec = func(t types.Type, ref string) {
+								s := t.Underlying().(*types.Struct)
+								for i := 0; i < s.NumFields(); i++ {
+									if _, ok := s.Field(i).Type().Underlying().(*types.Struct); ok {
+										rec(s.Field(i).Type(), vc.subRef(t, i, ref))
+									} else {
+										out = append(out, compRef{vc.fieldHeap(t, i), ref})
+									}
+								}
+							}
+							rec(ft, vc.subRef(p.Elem(), path[0], b.t))
+							return out
+						}
+					}
+				}
+			}
+		}
+	}
+	c, r := e.modTarget(m)
+	out := []compRef{{c, r}}
+	if m.MapOf {
+		out = append(out, compRef{e.modTarget2(m), r})
+	}
+	return out
+}
+
 // modTarget: component and ref for a modifies item with an lvalue expression.
 func (e *Env) modTarget(m *ModItem) (comp, ref string) {
 	vc := e.vc
 	switch {
+	case m.Captured != "":
+		if f, ok := e.capturedCell[m.Captured]; ok {
+			return f()
+		}
+		e.fail("modifies captured %s: not a captured variable here", m.Captured)
 	case m.Elems:
 		s := e.eval(m.Expr)
 		sl, ok := s.typ.Underlying().(*types.Slice)
@@ -1071,7 +1242,18 @@ func (e *Env) modTarget2(m *ModItem) string {
 
 func (e *Env) resolveSpecType(s string) (types.Type, string) {
 	s = strings.TrimSpace(s)
+	if e.x.g.cs.Sorts[s] {
+		srt := quote("U$" + s)
+		if !e.vc.gdecl["sort:"+srt] {
+			e.vc.gdecl["sort:"+srt] = true
+			e.vc.global(func() { e.vc.raw("(declare-sort " + srt + " 0)") })
+		}
+		return nil, srt
+	}
 	switch {
+	case strings.HasPrefix(s, "seq["):
+		t, es := e.resolveSpecType(s[4 : len(s)-1])
+		return t, e.vc.seqSort(es)
 	case s == "ref":
 		return nil, sInt
 	case s == "time":
@@ -1129,6 +1311,14 @@ func (e *Env) resolveType(s string) types.Type {
 		}
 	}
 	if k := strings.LastIndex(s, "."); k >= 0 {
+		if strings.Contains(s[:k], "/") {
+			if fp := e.x.g.tpkgs[s[:k]]; fp != nil {
+				if obj := fp.Scope().Lookup(s[k+1:]); obj != nil {
+					return obj.Type()
+				}
+			}
+			e.fail("unknown type %s", s)
+		}
 		p := e.x.g.importedPkg(e.pkg, s[:k])
 		if p == nil {
 			e.fail("unknown package %q in type %s", s[:k], s)
@@ -1155,4 +1345,50 @@ func identName(d *ssa.DebugRef) (string, bool) {
 		_ = ex
 	}
 	return debugIdent(d)
+}
+
+func isLocalObj(d *ssa.DebugRef) bool {
+	obj := d.Object()
+	v, ok := obj.(*types.Var)
+	if !ok || v.Pkg() == nil {
+		return false
+	}
+	return v.Parent() != v.Pkg().Scope() && !v.IsField()
+}
+
+// loopRangeSlice: the slice a `for ... range s` loop with this header iterates over.
+func (x *Exec) loopRangeSlice(h *ssa.BasicBlock) ssa.Value {
+	li := x.loops[h]
+	if li == nil {
+		return nil
+	}
+	var idxPhi *ssa.Phi
+	for _, in := range h.Instrs {
+		if phi, ok := in.(*ssa.Phi); ok && phi.Comment == "rangeindex" {
+			idxPhi = phi
+		}
+	}
+	if idxPhi == nil {
+		return nil
+	}
+	for b := range li.blocks {
+		for _, in := range b.Instrs {
+			if ia, ok := in.(*ssa.IndexAddr); ok {
+				if bo, ok := ia.Index.(*ssa.BinOp); ok && bo.X == idxPhi {
+					return ia.X
+				}
+			}
+		}
+	}
+	// loops that ignore the element: the length compared against in the header
+	for _, in := range h.Instrs {
+		if bo, ok := in.(*ssa.BinOp); ok {
+			if c, ok := bo.Y.(*ssa.Call); ok {
+				if b, ok := c.Call.Value.(*ssa.Builtin); ok && b.Name() == "len" {
+					return c.Call.Args[0]
+				}
+			}
+		}
+	}
+	return nil
 }
